@@ -41,7 +41,8 @@ def run(chk, repo):
     chk.rule("C06-Q3", "records_per_chunk is never persisted in the index", 1)
     chk.attempt(g3_threading, chk, op, "C06-Q1", options=("records_per_chunk",))
     chk.attempt(open_rpc, chk, repo)
-    chk.attempt(q2, chk, repo)
+    chk.attempt(advertised_chunks, chk, repo)
+    chk.attempt(q2, chk, repo, covered_by="advertised_chunks")
     chk.attempt(q3, chk, repo)
     chk.rule("C01-R7", "one chunk size keys both the offsets table and the row grouping (C06-Q4)", 4)
     chk.attempt(chunk_key_agreement, chk, repo, covered_by="load_rpc")
@@ -54,6 +55,40 @@ def run(chk, repo):
     chk.rule("C01-R8", "metadata pass: the requests add up to the header's record count for every records_per_chunk (C06-Q6)", 2)
     chk.attempt(chunk_sizes_spec, chk, repo, covered_by="trace_rpc", rules=("C01-R8",))
     chk.count("functions", len(op.reach))
+
+
+def advertised_chunks(chk, repo):
+    """C06-Q10: what the tree advertises for the pixel variable, evaluated (Array.chunks, Variable.chunks, xarray.extract_encoding
+    on model arrays): preferred_chunksizes == {rows: stored records_per_chunk, columns: number of pixels} - also when the
+    image is a single chunk (records_per_chunk >= number of lines) and for non-array data no entry"""
+    from collections import OrderedDict
+    from ..repeval import from_shape, Undecided
+    from ..shapes import Const, DictS, Interp, ListLit, Obj, ShapeError, TupS, _Raise
+    chk.rule("C06-Q10", "the advertised chunk size of the pixel variable is (records_per_chunk after normalisation, pixels) for every size incl. a single chunk", 4)
+    am, hm, xm = repo.module("ceos_alos2.array"), repo.module("ceos_alos2.hierarchy"), repo.module("ceos_alos2.xarray")
+    acls, vcls = repo.resolve_module_name(am, "Array"), repo.resolve_module_name(hm, "Variable")
+    if acls.kind != "class" or vcls.kind != "class":
+        raise AnalysisError("anchor vanished: Array / Variable classes")
+    where = f"{xm.relpath}:extract_encoding"
+    for rpc, n in ((3, 7), (7, 7), (1, 1), (1024, 5000), (5, 6)):
+        I = Interp(repo)
+        arr = Obj("Array", OrderedDict(records_per_chunk=Const(rpc), shape=TupS([Const(n), Const(5)]), dtype=Const("uint16")), klass=(acls.mod, acls.node))
+        var = Obj("Variable", OrderedDict(dims=ListLit([Const("rows"), Const("columns")]), data=arr, attrs=DictS()), klass=(vcls.mod, vcls.node))
+        try:
+            out = from_shape(I.call(I.lookup("extract_encoding", I.module_scope(xm)), [var], {}))
+        except (ShapeError, _Raise, Undecided) as e:
+            raise AnalysisError(f"{where}: cannot be evaluated on a model variable ({n} lines, chunk {rpc}): {str(e)[:120]}")
+        want = {"preferred_chunksizes": {"rows": rpc, "columns": 5}}
+        chk.require(out == want, "C06-Q10", where, f"{n} lines in chunks of {rpc}: encoding {want}",
+                    f"a pixel variable of {n} lines whose array is chunked by {rpc} lines advertises {out}, expected {want}: the advertised chunk size is not min(records_per_chunk, lines) for this size",
+                    key="advertised:" + ("single-chunk" if rpc >= n else "chunked"), sample={"lines": n, "chunk": rpc})
+    I = Interp(repo)
+    plain = Obj("Variable", OrderedDict(dims=ListLit([Const("rows")]), data=ListLit([Const(1)]), attrs=DictS()), klass=(vcls.mod, vcls.node))
+    try:
+        out = from_shape(I.call(I.lookup("extract_encoding", I.module_scope(xm)), [plain], {}))
+    except (ShapeError, _Raise, Undecided) as e:
+        raise AnalysisError(f"{where}: cannot be evaluated on in-memory data: {str(e)[:100]}")
+    chk.require(out == {}, "C06-Q10", where, "in-memory (per-line) variables advertise nothing", f"an in-memory variable advertises {out}", key="advertised:plain")
 
 
 def load_rpc(chk, repo):
